@@ -150,8 +150,10 @@ pub fn build_workload_full(
     if bias_fold_count {
         cfg.f_fold = true;
         cfg.f_count = true;
-        cfg.max_vertices = cfg.max_vertices.max(3);
-        cfg.max_depth = cfg.max_depth.max(2);
+        // folds inside folds inside folds: half of the fold-count cases allow three levels
+        let deep = tapes.query.draw(2) as usize;
+        cfg.max_vertices = cfg.max_vertices.max(3 + 2 * deep);
+        cfg.max_depth = cfg.max_depth.max(2 + 2 * deep);
     }
     if bias_tags {
         cfg.bias_tags = true;
